@@ -22,7 +22,7 @@ RULE = ("Hypothesis draws a recording (AP/LF/nidq, 1..384 channels, integer or f
         "coverage.margins.truncation_points_max and the class histogram. Distinct = distinct case hash.")
 ASSUMPTIONS = ["a crash of the writer is modelled as a file cut at an arbitrary byte; content before the cut is intact",
                "sort=False is used so that the calibrated prefix is in on-disk order (ordering is covered by C01)"]
-BUDGET = {"quick": 128, "thorough": 3000}
+BUDGET = {"quick": 128, "thorough": 10000}
 SHRINK = {"quick": False, "thorough": True}
 MAX_ENUM = 1600
 
